@@ -405,6 +405,31 @@ def minkowski_rules(db, chk, cfg, rule="MINK"):
         G, H = prev_of(kids(outer)[-1], I), prev_of(kids(inner)[-1], J)
         if I and J and G and H:
             roles = (I, J, G, H, outer, inner)
+    # (b2) the "previous" cursors G and H are advanced at the end of every iteration: no `continue` (outside nested loops) may jump over
+    # `G = I` / `H = J` - the next quad would span a chord from a stale vertex instead of the next edge
+    if roles is not None:
+        I, J, G, H, outer, inner = roles
+        for loop, prevv, cur in ((outer, G, I), (inner, H, J)):
+            conts = []
+
+            def scan(node, depth=0):
+                for c0 in kids(node):
+                    if not isinstance(c0, dict):
+                        continue
+                    if c0.get("kind") in ("ForStmt", "WhileStmt", "DoStmt", "CXXForRangeStmt"):
+                        continue
+                    if c0.get("kind") == "LambdaExpr":
+                        continue
+                    if c0.get("kind") == "ContinueStmt":
+                        conts.append(c0)
+                    scan(c0, depth + 1)
+            scan(kids(loop)[-1])
+            n += 1
+            ok = not conts
+            chk.instance(rule + ".quad", {"obligation": "`%s = %s` at the end of the loop body is reached by every iteration (no continue before it)" % (prevv, cur), "cfg": cfg}, ok=ok)
+            if not ok:
+                chk.violation(rule + ".quad", f.qual, "continue|%s" % prevv, "a `continue` at %s skips `%s = %s` at the end of the loop body: the next quad is spanned from a stale "
+                              "previous vertex (a chord) instead of the next edge" % (where(conts[0]), prevv, cur), where(conts[0]), cfg=cfg)
     # (c) closing edge of the path only when closed: I starts at 0 (closed) / 1 (open), G at last / first, the loop runs while I < pathLen
     ok = roles is not None
     why_ce = ""
